@@ -193,6 +193,7 @@ func applyTC(ts topicSetter, tc int) {
 		ts.SetPartitions(map[string]int32{"b": 1})
 	case TCChange:
 		ts.SetDefaultPartitions(2)
+		ts.SetPartitions(map[string]int32{"b": 4})
 	}
 }
 
